@@ -40,8 +40,13 @@ func hostileWords(t *rapid.T, label string) string {
 }
 
 // benign features: shapes whose only deviation is the exactly predicted effect of an open finding
-var benignFeats = []string{"list", "list", "list", "code", "code", "empty", "plainhdr", "multifmt", "deephead"}
-var wildFeats = []string{"md", "edge", "adjacent", "uscore", "codecombo", "pipe", "nogfm", "meta", "wrapfmt", "listlazy"}
+// (blanks at run edges and code+emphasis runs belong here since the exporter was repaired for them)
+var benignFeats = []string{"list", "list", "list", "code", "code", "empty", "plainhdr", "multifmt", "deephead", "edge", "edge", "codecombo"}
+var wildFeats = []string{"md", "adjacent", "uscore", "pipe", "nogfm", "meta", "wrapfmt"}
+
+// blanks for run edges: ASCII, and the Unicode blanks CommonMark counts as whitespace for the flanking rules
+// (a delimiter run next to one of them is not flanking, exactly as next to a space)
+var edgeBlanks = []string{" ", "", "\u00a0", "  ", "\t", "\u3000", "\u2003", "\u2002", "\u2009", "\u1680", "\u200a", "\u2004", "\u2005", "\u2006", "\u2007", "\u2008", " \u00a0"}
 
 type gctx struct {
 	t    *rapid.T
@@ -72,11 +77,28 @@ func genCase(t *rapid.T) Case {
 		pickFrom(wildFeats, rapid.IntRange(1, 2).Draw(t, "nw"), "wf")
 		pickFrom(benignFeats, rapid.IntRange(0, 1).Draw(t, "nb"), "bf")
 	}
-	if g.f["listlazy"] {
-		g.f["list"] = true
+	// how the options reach the exporter, and which other exports happen between the judged ones
+	via := rapid.SampledFrom([]string{"", "", "default", "", "", "nilexp", "", "", "hq", "", "", ""}).Draw(t, "via")
+	var hist []Step
+	nh := rapid.SampledFrom([]int{0, 1, 0, 2, 0, 0}).Draw(t, "nhist")
+	if via != "" && nh == 0 {
+		nh = 1 // options taken from the library's constructors are only interesting with other users of them around
+	}
+	for i := 0; i < nh; i++ {
+		k := rapid.SampledFrom([]string{"mutdefault", "hq", "struct", "mutdefault", "nilexp"}).Draw(t, "hk")
+		if via != "" && i == 0 {
+			k = rapid.SampledFrom([]string{"mutdefault", "hq", "mutdefault"}).Draw(t, "hk0")
+		}
+		st := Step{K: k}
+		if k == "mutdefault" || k == "struct" {
+			st.O = Opts{GFM: rapid.Bool().Draw(t, "hgfm"), Setext: rapid.Bool().Draw(t, "hsetext"), Bullet: rapid.SampledFrom([]string{"+", "*", "-"}).Draw(t, "hbullet"),
+				Emph: rapid.SampledFrom([]string{"_", "*"}).Draw(t, "hemph"), Wrap: rapid.Bool().Draw(t, "hwrap"), MaxLen: rapid.SampledFrom([]int{10, 1, 40}).Draw(t, "hmaxlen"),
+				Meta: rapid.IntRange(0, 3).Draw(t, "hmeta") > 0}
+		}
+		hist = append(hist, st)
 	}
 	g.o = Opts{
-		GFM:    !g.f["nogfm"],
+		GFM:    !g.f["nogfm"] && rapid.SampledFrom([]bool{true, true, false, true, true, true}).Draw(t, "gfm"),
 		Setext: rapid.Bool().Draw(t, "setext"),
 		Bullet: rapid.SampledFrom([]string{"-", "*", "+"}).Draw(t, "bullet"),
 		Emph:   rapid.SampledFrom([]string{"*", "_"}).Draw(t, "emph"),
@@ -86,6 +108,9 @@ func genCase(t *rapid.T) Case {
 	}
 	if g.f["wrapfmt"] {
 		g.o.MaxLen = rapid.SampledFrom([]int{1, 10, 20}).Draw(t, "maxlen2")
+	}
+	if via != "" {
+		g.o = viaOpts(via) // the documented values of what the constructor returns
 	}
 	n := rapid.IntRange(1, kit.Scale(10, 16)).Draw(t, "nblocks")
 	interleave := rapid.IntRange(0, 2).Draw(t, "interleave") > 0
@@ -103,42 +128,17 @@ func genCase(t *rapid.T) Case {
 	if !interleave {
 		blocks = append(text, tables...)
 	}
-	if !g.f["listlazy"] {
-		blocks = separateLists(blocks, g.o)
-	}
-	return Case{Mode: mode, Feats: feats, Blocks: blocks, O: g.o}
-}
-
-// separateLists makes every list item be followed by a block that ends it (another item, a quote,
-// an ATX heading, a code block, an empty paragraph) by swapping in a quote where needed.
-func separateLists(bs []Block, o Opts) []Block {
-	var out []Block
-	for i, b := range bs {
-		out = append(out, b)
-		if b.K != "li" || i+1 >= len(bs) {
-			continue
-		}
-		n := bs[i+1]
-		if n.K == "p" || n.K == "table" || (n.K == "h" && o.Setext && n.Level <= 2) {
-			out = append(out, Block{K: "q", T: "sep"})
-		}
-	}
-	// a trailing list item meets the first table under the paragraphs-then-tables traversal
-	if len(out) > 0 {
-		lastText := -1
-		hasTable := false
-		for i, b := range out {
+	// a table directly after a list item (the list has to be closed before the table, whatever the table style)
+	if rapid.IntRange(0, 3).Draw(t, "itemtable") == 0 {
+		for i, b := range blocks {
 			if b.K == "table" {
-				hasTable = true
-			} else {
-				lastText = i
+				it := Block{K: "li", T: words(t, "itt", 1, 2)}
+				blocks = append(blocks[:i], append([]Block{it}, blocks[i:]...)...)
+				break
 			}
 		}
-		if hasTable && lastText >= 0 && out[lastText].K == "li" {
-			out = append(out[:lastText+1], append([]Block{{K: "q", T: "end"}}, out[lastText+1:]...)...)
-		}
 	}
-	return out
+	return Case{Mode: mode, Feats: feats, Blocks: blocks, O: g.o, Via: via, Hist: hist}
 }
 
 func (g *gctx) block(i int) Block {
@@ -164,7 +164,7 @@ func (g *gctx) block(i int) Block {
 	case "h":
 		s := txt("ht", 1, 3)
 		if g.f["edge"] && rapid.IntRange(0, 3).Draw(t, "hedge") == 0 {
-			s = " " + s + " "
+			s = rapid.SampledFrom(edgeBlanks).Draw(t, "hel") + s + rapid.SampledFrom(edgeBlanks).Draw(t, "her")
 		}
 		maxLevel := 6
 		if g.f["deephead"] {
@@ -254,7 +254,7 @@ func (g *gctx) para() Block {
 				r.T = hostileWords(t, "fhw")
 			}
 			if g.f["edge"] && rapid.IntRange(0, 1).Draw(t, "fe") == 0 {
-				r.T = rapid.SampledFrom([]string{" ", "  ", ""}).Draw(t, "fel") + r.T + rapid.SampledFrom([]string{" ", "\t", ""}).Draw(t, "fer")
+				r.T = rapid.SampledFrom(edgeBlanks).Draw(t, "fel") + r.T + rapid.SampledFrom(edgeBlanks).Draw(t, "fer")
 			}
 		} else {
 			if rapid.IntRange(0, 19).Draw(t, "emptyrun") == 0 {
